@@ -408,7 +408,7 @@ pub fn run(tier: &str) -> i32 {
     evals += cal_n;
 
     // directory entries over field corners, both FAT types
-    let names = ["A", "ABCDEFGH.TXT", "X.Y", "\u{00E9}T\u{00C9}.\u{00FF}"];
+    let names = ["A", "ABCDEFGH.TXT", "X.Y", "\u{00E9}T\u{00C9}.\u{00FF}", "\u{00E5}B.C", "\u{00E5}"];
     let clusters = [0u32, 1, 2, 0xFFFF, 0x10000, 0x0FFF_FFFF];
     let sizes = [0u32, 1, 511, 512, u32::MAX];
     let tss = [(1980, 1, 1, 0, 0, 0), (2107, 12, 31, 23, 59, 59), (2003, 4, 4, 13, 30, 5), (1999, 2, 28, 12, 0, 58)];
